@@ -129,10 +129,17 @@ func (vc *VC) callModular(fr *Frame, st *State, fn *ssa.Function, fc *FuncContra
 			if _, ok := st.mem[c]; !ok {
 				continue
 			}
+			vc.keepRefsOnHavoc++
 			vc.havocCell(st, c)
+			vc.keepRefsOnHavoc--
+			vc.assume("A-FRAME")
 			st.extWrites++
 			if vc.writeLog != nil {
 				vc.writeLog[c] = true
+				if vc.modularWritten == nil {
+					vc.modularWritten = map[*Cell]bool{}
+				}
+				vc.modularWritten[c] = true
 			}
 		}
 	}
